@@ -599,12 +599,16 @@ func (g *gen) maybeDirs(num, den int) []x.Dir {
 	if g.r.Chance(num, den) {
 		out = g.boolDir()
 	}
-	if g.r.Chance(1, 6) {
+	if g.r.Chance(1, 40) {
 		if g.r.Chance(1, 2) {
 			out = append(out, g.customDir())
 		} else {
 			out = append([]x.Dir{g.customDir()}, out...)
 		}
+	}
+	if len(out) >= 3 {
+		// a removable directive followed by two more: the walker skips the one after it
+		g.flag("three_directives")
 	}
 	return out
 }
